@@ -44,4 +44,14 @@ def obligations(repo):
         obs += c08_native.native_obligations("C08")
     except ImportError:
         pass
+    try:
+        import c08_tmpl
+        obs += c08_tmpl.tmpl_obligations("C08")
+    except ImportError:
+        pass
+    try:
+        import c08_interp
+        obs += c08_interp.interp_obligations("C08")
+    except ImportError:
+        pass
     return obs
